@@ -88,6 +88,27 @@ func shapeSpec(n int, choice []int) *spec.Spec {
 	return s
 }
 
+// ShapeCliques: n messages each referring to every other one (the number of reference paths is factorial in n).
+func ShapeCliques() []*spec.Spec {
+	var out []*spec.Spec
+	for _, n := range []int{2, 4, 6, 8, 10, 12} {
+		var msgs []*spec.Message
+		for i := 0; i < n; i++ {
+			m := spec.M(fmt.Sprintf("M%d", i), spec.F("label", "string"))
+			for j := 0; j < n; j++ {
+				if j != i {
+					m.Fields = append(m.Fields, spec.Msg(fmt.Sprintf("to_m%d", j), fmt.Sprintf("M%d", j)))
+				}
+			}
+			msgs = append(msgs, m)
+		}
+		s := spec.One(fmt.Sprintf("clique%d", n), &spec.File{Messages: msgs, Services: []*spec.Service{spec.SvcNoBase("ShapeService", spec.RPCDefault("Do", "M0", "M0"))}})
+		s.Cell = fmt.Sprintf("shape/clique=%d", n)
+		out = append(out, s)
+	}
+	return out
+}
+
 // ShapeDegenerate lists degenerate / unusual but well-formed descriptor shapes.
 func ShapeDegenerate(thorough bool) []*spec.Spec {
 	var out []*spec.Spec
